@@ -118,7 +118,7 @@ Poll ==
   /\ MayPoll
   /\ LET raw == Raw
          r   == IF Wrapped THEN PollIS(Strategy, K, is, raw.kind, sigChan)
-                ELSE [is |-> is, out |-> raw.kind, polled |-> TRUE, recv |-> FALSE]
+                ELSE [is |-> is, out |-> raw.kind, polled |-> TRUE, recv |-> FALSE, act |-> FALSE, pit |-> FALSE]
      IN
      /\ is' = r.is
      /\ sigChan' = (sigChan /\ ~r.recv)
